@@ -496,7 +496,8 @@ func c19Compare(sent, got []c19Msg) (string, string) { //nolint:cyclop
 		return "message-lost", fmt.Sprintf("only the first %d of %d messages arrived; first missing: #%d %s", j, len(sent), j, sent[j])
 	}
 	g := got[j]
-	if j < len(sent) && bytes.Equal(g.data, sent[j].data) && g.text != sent[j].text {
+	sameBytes := j < len(sent) && bytes.Equal(g.data, sent[j].data) && g.text != sent[j].text
+	if sameBytes && len(g.data) >= 8 { // the header makes the bytes unique: this IS message #j
 		return "text-binary-flag-flipped", fmt.Sprintf("message #%d %s arrived with IsString=%v", j, sent[j], g.text)
 	}
 	if k := find(sent, g, j+1, len(sent)); k >= 0 { // a later message arrived in the place of #j
@@ -508,6 +509,9 @@ func c19Compare(sent, got []c19Msg) (string, string) { //nolint:cyclop
 	}
 	if k := find(sent, g, 0, j); k >= 0 {
 		return "message-duplicated", fmt.Sprintf("position %d holds sent #%d %s again (%d sent, %d arrived)", j, k, g, len(sent), len(got))
+	}
+	if sameBytes {
+		return "text-binary-flag-flipped", fmt.Sprintf("message #%d %s arrived with IsString=%v", j, sent[j], g.text)
 	}
 	for k := range sent {
 		if bytes.Equal(sent[k].data, g.data) {
@@ -545,7 +549,7 @@ func TestVerifC19(t *testing.T) { //nolint:gocognit,cyclop,maintidx
 		"and the network reordered at least one datagram; distinct by the generated channel/message plan")
 	defer run.Finish()
 	thorough := kit.Tier() == "thorough"
-	n := kit.N(24, 300)
+	n := kit.N(24, 1000)
 	var lateTotal, dupTotal, lostTotal, normalTotal atomic.Int64
 	run.Parallel(n, 12, func(i int) {
 		r := run.CaseRand(i)
@@ -563,6 +567,12 @@ func TestVerifC19(t *testing.T) { //nolint:gocognit,cyclop,maintidx
 		longLabel, longSide := 0, r.Intn(2)
 		if r.Chance(0.3) {
 			longLabel = kit.Pick(r, []int{1000, 4000, 8000, 8180, 8181, 8200, 12000, 30000, 65535})
+		}
+		switch i % 8 { // every seed sees both sides of the 8 KiB DCEP boundary
+		case 3:
+			longLabel = []int{8181, 12000, 65535}[(i/8)%3]
+		case 7:
+			longLabel = 8180
 		}
 		var descParts []string
 		for _, s := range specs {
